@@ -210,6 +210,9 @@ theorem St.trans {a b c : RState} {d1 d2 : Nat → Int} (h1 : St a b d1) (h2 : S
   ⟨⟨h2.eff.g.trans h1.eff.g, fun u => by have := h1.eff.wk u; have := h2.eff.wk u; omega,
     fun u => (h2.eff.loc u).trans (h1.eff.loc u)⟩, h1.q.trans h2.q⟩
 
+theorem st_lg {r x : RState} {d : Nat → Int} (h : St r x d) (cs : List Nat) : St r (lg x cs) d :=
+  ⟨⟨h.eff.g, h.eff.wk, h.eff.loc⟩, h.q⟩
+
 theorem st_vtClone (r : RState) (t : Nat) (ht : t < r.s.ntasks) :
     St r (vtClone r t) (fun u => if u = t then 1 else 0) :=
   ⟨vtClone_eff r t ht, by rw [(vtClone_p r t).1]; exact QEq.refl _⟩
@@ -243,6 +246,9 @@ theorem cnt_st {nch : Nat} {lrun wrun : Option Nat} {r r' : RState} {d : Nat →
   refine cnt_move h st.eff (fun u => ?_)
   rw [st.q.1, st.q.2.1, st.q.2.2.1, hd u]; simp
 
+theorem cnt_lg {nch : Nat} {lrun wrun : Option Nat} {x : RState} (h : Cnt nch lrun wrun x) (cs : List Nat) :
+    Cnt nch lrun wrun (lg x cs) := ⟨h.g, h.wk, h.loc⟩
+
 /-- `cx.waker().wake_by_ref(); cx.waker().clone().wake()` -/
 theorem cnt_yield {nch : Nat} {lrun wrun : Option Nat} {r : RState} (h : Cnt nch lrun wrun r) (t : Nat)
     (ht : t < r.s.ntasks) :
@@ -275,8 +281,8 @@ theorem wakeAllRef_st (ws : List Nat) (r : RState) (hw : ∀ w, w ∈ ws → w <
       simp only [if_true] at a
       omega
     have s3 := st_vtDrop (vtWakeByRef (vtClone r w) w) w hw3
-    have s123 := (s1.trans s2).trans s3
-    obtain ⟨d, sd, hd⟩ := ih (vtDrop (vtWakeByRef (vtClone r w) w) w) (fun x hx => by
+    have s123 := st_lg ((s1.trans s2).trans s3) [cClone w, cRef w, cDrop w]
+    obtain ⟨d, sd, hd⟩ := ih (lg (vtDrop (vtWakeByRef (vtClone r w) w) w) [cClone w, cRef w, cDrop w]) (fun x hx => by
       rw [s123.q.2.2.1]; exact hw x (List.mem_cons_of_mem _ hx))
     refine ⟨_, s123.trans sd, fun u => ?_⟩
     rw [hd u]
@@ -290,8 +296,8 @@ theorem wakeAllVal_st (ws : List Nat) (r : RState) (hw : ∀ w, w ∈ ws → w <
   | cons w ws ih =>
     have hwl : w < r.s.ntasks := hw w (by simp)
     have hw1 : r.wk w ≠ 0 := by have := hc w; simp only [List.count_cons_self] at this; omega
-    have s1 := st_vtWake r w hwl hw1
-    have s2 := ih (vtWake r w) (fun x hx => by rw [s1.q.2.2.1]; exact hw x (List.mem_cons_of_mem _ hx)) (fun u => by
+    have s1 := st_lg (st_vtWake r w hwl hw1) [cWake w]
+    have s2 := ih (lg (vtWake r w) [cWake w]) (fun x hx => by rw [s1.q.2.2.1]; exact hw x (List.mem_cons_of_mem _ hx)) (fun u => by
       have a := s1.eff.wk u
       have b := hc u
       by_cases e : u = w
@@ -300,8 +306,8 @@ theorem wakeAllVal_st (ws : List Nat) (r : RState) (hw : ∀ w, w ∈ ws → w <
         simp only [e, if_false] at a; omega)
     have := s1.trans s2
     refine ⟨⟨this.eff.g, fun u => ?_, this.eff.loc⟩, this.q⟩
-    have a : (((wakeAllVal (vtWake r w) ws).wk u : Nat) : Int) = _ := this.eff.wk u
-    show (((wakeAllVal (vtWake r w) ws).wk u : Nat) : Int) = _
+    have a : (((wakeAllVal (lg (vtWake r w) [cWake w]) ws).wk u : Nat) : Int) = _ := this.eff.wk u
+    show (((wakeAllVal (lg (vtWake r w) [cWake w]) ws).wk u : Nat) : Int) = _
     by_cases e : u = w
     · subst e; simp only [List.count_cons_self, if_true] at a ⊢; omega
     · have : (w :: ws).count u = ws.count u := by simp [List.count_cons, Ne.symm e]
@@ -486,7 +492,7 @@ theorem cnt_rRunActs {ab : Bool} {nch : Nat} {lrun wrun : Option Nat} (t : Nat) 
   | case3 rest r =>
     have htl : t < r.s.ntasks := (hi.run t rfl).1
     obtain ⟨c1, q1⟩ := cnt_yield h t htl
-    refine ⟨c1, chanB_q hc q1, ?_⟩
+    refine ⟨cnt_lg c1 _, chanB_q hc q1, ?_⟩
     intro rest' hr k hk
     simp only [Option.some.injEq] at hr
     subst hr
@@ -497,7 +503,7 @@ theorem cnt_rRunActs {ab : Bool} {nch : Nat} {lrun wrun : Option Nat} (t : Nat) 
   | case5 k rest r hk r1 =>
     have htl : t < r.s.ntasks := (hi.run t rfl).1
     obtain ⟨c1, b1⟩ := cnt_register hc h t k htl (ha k (by simp))
-    refine ⟨c1, b1, ?_⟩
+    refine ⟨cnt_lg c1 _, b1, ?_⟩
     intro rest' hr k' hk'
     simp only [Option.some.injEq] at hr
     subst hr
@@ -816,6 +822,9 @@ theorem foldl_decStrong_ghost (l : List Nat) (r : RState) :
     obtain ⟨i1, i2, i3⟩ := ih (decStrong r a)
     exact ⟨i1.trans d1, i2.trans d2, i3.trans d3⟩
 
+theorem atB_lg {nch : Nat} {x : RState} (h : AtB nch x) (cs : List Nat) : AtB nch (lg x cs) :=
+  ⟨cnt_lg h.cnt cs, h.ch⟩
+
 theorem atB_rRun {ab : Bool} {nch : Nat} (r : RState) (op : XOp) (hi : InvX ab none r.s) (h : AtB nch r) :
     AtB nch (rRun r op) := by
   cases op with
@@ -845,6 +854,7 @@ theorem atB_rRun {ab : Bool} {nch : Nat} (r : RState) (op : XOp) (hi : InvX ab n
         simp at b
         omega
       have s1 := st_vtWake { r with s := { r.s with waiters := upd r.s.waiters k ((r.s.waiters k).eraseIdx i) } } t htl hw0
+      refine atB_lg ?_ _
       refine ⟨cnt_move h.cnt ⟨s1.eff.g, s1.eff.wk, s1.eff.loc⟩ (fun u => ?_), chanB_q (chanB_take h.ch k hk _) s1.q⟩
       rw [s1.q.1, s1.q.2.1, s1.q.2.2.1]
       show ((heldWf (upd r.s.waiters k ((r.s.waiters k).eraseIdx i)) nch u + heldRf r.s.relay r.s.ntasks u : Nat) : Int) = _
@@ -860,7 +870,7 @@ theorem atB_rRun {ab : Bool} {nch : Nat} (r : RState) (op : XOp) (hi : InvX ab n
       simp only []
       have htl : t < r.s.ntasks := hi.wlt k t (mem_of_getElem? hw)
       have s1 := st_vtWakeByRef r t htl
-      exact ⟨cnt_st h.cnt s1 (fun _ => rfl), chanB_q h.ch s1.q⟩
+      exact atB_lg ⟨cnt_st h.cnt s1 (fun _ => rfl), chanB_q h.ch s1.q⟩ _
   | clone k i =>
     simp only [rRun]
     cases hw : (r.s.waiters k)[i]? with
@@ -870,7 +880,7 @@ theorem atB_rRun {ab : Bool} {nch : Nat} (r : RState) (op : XOp) (hi : InvX ab n
       have htl : t < r.s.ntasks := hi.wlt k t (mem_of_getElem? hw)
       obtain ⟨hk, _⟩ := held_take h.ch k i t hw
       obtain ⟨c1, b1⟩ := cnt_register h.ch h.cnt t k htl hk
-      exact ⟨c1, b1⟩
+      exact atB_lg ⟨c1, b1⟩ _
   | drop k i =>
     simp only [rRun]
     cases hw : (r.s.waiters k)[i]? with
@@ -884,6 +894,7 @@ theorem atB_rRun {ab : Bool} {nch : Nat} (r : RState) (op : XOp) (hi : InvX ab n
         simp at b
         omega
       have s1 := st_vtDrop { r with s := { r.s with waiters := upd r.s.waiters k ((r.s.waiters k).eraseIdx i) } } t hw0
+      refine atB_lg ?_ _
       refine ⟨cnt_move h.cnt ⟨s1.eff.g, s1.eff.wk, s1.eff.loc⟩ (fun u => ?_), chanB_q (chanB_take h.ch k hk _) s1.q⟩
       rw [s1.q.1, s1.q.2.1, s1.q.2.2.1]
       show ((heldWf (upd r.s.waiters k ((r.s.waiters k).eraseIdx i)) nch u + heldRf r.s.relay r.s.ntasks u : Nat) : Int) = _
